@@ -32,3 +32,36 @@ Definition neighborhood (vs : list nvar) : list (list Z) :=
 
 (* the search of get_graph: the first vector of the neighbourhood that is feasible *)
 Definition first_feasible (feas : list Z -> bool) (vs : list nvar) : option (list Z) := find feas (neighborhood vs).
+
+(* ---------- the imputation cache of the fast encoder (fast.py get_graph) ---------- *)
+(* a request: the variables with their requested values and fixed flags; the cache maps requests to search results *)
+Definition request := list nvar.
+Definition nvar_eqb (a b : nvar) : bool :=
+  Nat.eqb (fst (fst a)) (fst (fst b)) && Z.eqb (snd (fst a)) (snd (fst b)) && Bool.eqb (snd a) (snd b).
+Fixpoint req_eqb (a b : request) : bool :=
+  match a, b with [], [] => true | x :: a', y :: b' => nvar_eqb x y && req_eqb a' b' | _, _ => false end.
+
+Definition icache := list (request * option (list Z)).
+Fixpoint ilookup (c : icache) (r : request) : option (option (list Z)) :=
+  match c with [] => None | (k, v) :: t => if req_eqb k r then Some v else ilookup t r end.
+
+(* since 9b483be: only the request itself (values and fixed flags) is a key *)
+Definition decode_cached (feas : list Z -> bool) (c : icache) (r : request) : icache * option (list Z) :=
+  match ilookup c r with
+  | Some v => (c, v)
+  | None => let v := first_feasible feas r in ((r, v) :: c, v)
+  end.
+
+(* as found: the result is also stored under every vector tried on the way, as a request with the same option counts and
+   fixed flags but that vector as requested values; and the flags were not part of the key (modelled by the key being
+   rebuilt from the current request's flags) *)
+Definition with_values (r : request) (x : list Z) : request :=
+  map (fun p => (fst (fst (fst p)), snd p, snd (fst p))) (combine r x).
+Fixpoint tried_until (feas : list Z -> bool) (l : list (list Z)) : list (list Z) :=
+  match l with [] => [] | x :: t => if feas x then [x] else x :: tried_until feas t end.
+Definition decode_cached_all (feas : list Z -> bool) (c : icache) (r : request) : icache * option (list Z) :=
+  match ilookup c r with
+  | Some v => (c, v)
+  | None => let v := first_feasible feas r in
+            (map (fun x => (with_values r x, v)) (tried_until feas (neighborhood r)) ++ c, v)
+  end.
